@@ -32,6 +32,15 @@ def main():
             found = " ".join(r["found"])
         lines.append("| `%s` | %s | %s | %s | %s |" % (name, m["property"], m.get("needs", "").replace("|", "/")[:230], found, status))
     lines += ["", "%d changes, %d reported by the check of the property they were written to break." % (n, caught), ""]
+    notes = []
+    for name in sorted(os.listdir(sd)):
+        mj = os.path.join(sd, name, "meta.json")
+        if os.path.exists(mj):
+            m = json.load(open(mj))
+            if m.get("note"):
+                notes.append("* `%s`: %s" % (name, m["note"]))
+    if notes:
+        lines += ["Notes on the others:", ""] + notes + [""]
     with open(os.path.join(sd, "README.md"), "w") as f:
         f.write("\n".join(lines))
     print("%d changes, %d caught" % (n, caught))
